@@ -249,6 +249,26 @@ def run(rep):
                 ref = shape
             rep.check(shape == ref and shape.endswith("255-N") and shape.startswith("Gt"), "C01-R6", d, "threshold-agrees", "escape threshold must be `first > 255 - N` in all varint primitives; this one is %s" % esc[0], detail={"cmp": esc[0]})
 
+    # ---- R7 `None` is a value, not an absence, outside option writers -------------------------------------------------
+    # serialize_if_some / serializes_as_some let a writer omit a struct field whose value "is none"; the reader of a dynamic
+    # Value::Struct keeps a field holding Value::None, so the dynamic value types must write every field unconditionally, and
+    # only writers of the Option tag may declare themselves "none".
+    n7 = 0
+    for d, b in sorted(prog.bodies.items()):
+        if "::test" in d or b.crate != "aldrin_core":
+            continue
+        if b.name == "serializes_as_some" and b.kind == "AssocFn" and (b.impl_trait or "").endswith("Serialize"):
+            n7 += 1
+            targ = (b.raw.get("impl_trait_full") or "")
+            ok = re.search(r"Serialize<aldrin_core::tags::Option<", targ) is not None
+            rep.check(ok, "C01-R7", d, "as-some-only-for-option-writers", "only a writer of the Option tag may report itself as none; this impl (%s) would make struct writers using serialize_if_some drop a field whose value is a none VALUE, which the reader keeps" % targ, line=b.span, detail={})
+        if "aldrin_core::value::" in (b.impl_self or "") and b.name == "serialize" and b.kind == "AssocFn" and (b.impl_trait or "").endswith("Serialize"):
+            for bb_ in [b] + prog.closures_of(b.def_):
+                cond = [c for c in bb_.calls if c.name == "serialize_if_some"]
+                n7 += 1
+                rep.check(not cond, "C01-R7", d, "dynamic-values-write-every-field", "the writers of the dynamic value types must write every field unconditionally (serialize, not serialize_if_some): the reader keeps a field holding Value::None", line=b.span, detail={"sites": len(cond)})
+    rep.floor("C01-R7", "option-writer declarations and dynamic value writers", n7, 6)
+
 
 def strip_role(descs):
     return set(re.sub(r"\.0$", "", d) for d in descs)
